@@ -10,47 +10,349 @@ namespace Holpy
 def Valuation.pull (M : Model) (ρ : Valuation) (σ : Ty.TyInst) : Valuation :=
   fun k n T => if k = 2 then constVal M ρ n (T.subst σ) else ρ k n (T.subst σ)
 
+theorem Ty.subst_con (σ : Ty.TyInst) (n : String) (args : List Ty) :
+    (Ty.con n args).subst σ = .con n (args.map (Ty.subst σ)) := by
+  simp only [Ty.subst]
+
+theorem Ty.subst_tvar (σ : Ty.TyInst) (n : String) : (Ty.tvar n).subst σ = .tvar n := by
+  simp only [Ty.subst]
+
+theorem Ty.subst_bool (σ : Ty.TyInst) : Ty.bool.subst σ = Ty.bool := by
+  simp only [Ty.bool, Ty.subst, List.map]
+
+theorem Ty.subst_fn (σ : Ty.TyInst) (a b : Ty) : (Ty.fn a b).subst σ = Ty.fn (a.subst σ) (b.subst σ) := by
+  simp only [Ty.fn, Ty.subst, List.map]
+
+theorem Model.conSize_pull (M : Model) (σ : Ty.TyInst) (n : String) (ss : List Nat) :
+    (M.pull σ).conSize n ss = M.conSize n ss := by
+  unfold Model.conSize
+  rfl
+
+theorem Model.sizeList_pull (M : Model) (σ : Ty.TyInst) :
+    ∀ (l : List Ty), (∀ a ∈ l, (M.pull σ).size a = M.size (a.subst σ)) →
+      (M.pull σ).sizeList l = M.sizeList (l.map (Ty.subst σ))
+  | [], _ => by simp only [Model.sizeList, List.map]
+  | a :: as, h => by
+    simp only [Model.sizeList, List.map]
+    rw [h a (List.mem_cons_self ..), Model.sizeList_pull M σ as (fun b hb => h b (List.mem_cons_of_mem _ hb))]
+
 theorem Model.size_pull (M : Model) (σ : Ty.TyInst) (T : Ty) :
     (M.pull σ).size T = M.size (T.subst σ) := by
-  sorry
+  induction T using Ty.ind with
+  | hs n =>
+    have hp := M.size_pos (Ty.subst σ (.stvar n))
+    show (M.size (Ty.subst σ (.stvar n)) - 1) + 1 = _
+    omega
+  | ht n => simp only [Ty.subst, Model.size]; rfl
+  | hc n args ih =>
+    rw [Ty.subst_con]
+    simp only [Model.size]
+    rw [Model.conSize_pull, Model.sizeList_pull M σ args ih]
 
 theorem Admissible.pull {M : Model} {ρ : Valuation} (hρ : Admissible M ρ) (σ : Ty.TyInst) :
     Admissible (M.pull σ) (ρ.pull M σ) := by
-  sorry
+  intro k n T
+  rw [Model.size_pull]
+  unfold Valuation.pull
+  split
+  · exact constVal_lt M ρ hρ n _
+  · exact hρ k n _
+
 
 theorem logicalKind_subst (n : String) (T : Ty) (k : Nat) (a : Ty) (σ : Ty.TyInst)
     (h : logicalKind n T = some (k, a)) : logicalKind n (T.subst σ) = some (k, a.subst σ) := by
-  sorry
+  unfold logicalKind at h
+  split at h
+  · split at h
+    · rename_i heq
+      cases h
+      subst heq
+      simp only [Ty.subst, List.map, logicalKind, if_true]
+    · cases h
+  · cases h
+    simp only [Ty.subst, List.map, logicalKind, Ty.bool]
+  · cases h
+    simp only [Ty.subst, List.map, logicalKind]
+  · cases h
 
 theorem sigOK_substType (σ : Ty.TyInst) (t : Term) (h : sigOK t = true) :
     sigOK (Term.substType σ t) = true := by
-  sorry
+  induction t with
+  | svar n T => simp only [Term.substType, sigOK]
+  | var n T => simp only [Term.substType, sigOK]
+  | const n T =>
+    simp only [Term.substType, sigOK] at h ⊢
+    split
+    · rename_i hn
+      rw [if_pos hn] at h
+      cases hk : logicalKind n T with
+      | none => rw [hk] at h; cases h
+      | some p =>
+        obtain ⟨k, a⟩ := p
+        rw [logicalKind_subst n T k a σ hk]; rfl
+    · rfl
+  | comb f a ihf iha =>
+    simp only [Term.substType, sigOK, Bool.and_eq_true] at h ⊢
+    exact ⟨ihf h.1, iha h.2⟩
+  | abs x T b ih =>
+    simp only [Term.substType, sigOK] at h ⊢
+    exact ih h
+  | bound i => simp only [Term.substType, sigOK]
+
+/-- alpha-equivalence is preserved by type instantiation -/
+theorem Term.aeq_substType (σ : Ty.TyInst) (a b : Term) (h : Term.aeq a b = true) :
+    Term.aeq (Term.substType σ a) (Term.substType σ b) = true := by
+  induction a generalizing b with
+  | svar n T =>
+    cases b <;> simp only [Term.aeq, Term.substType, Bool.and_eq_true, beq_iff_eq, Bool.false_eq_true] at h ⊢
+    exact ⟨h.1, by rw [h.2]⟩
+  | var n T =>
+    cases b <;> simp only [Term.aeq, Term.substType, Bool.and_eq_true, beq_iff_eq, Bool.false_eq_true] at h ⊢
+    exact ⟨h.1, by rw [h.2]⟩
+  | const n T =>
+    cases b <;> simp only [Term.aeq, Term.substType, Bool.and_eq_true, beq_iff_eq, Bool.false_eq_true] at h ⊢
+    exact ⟨h.1, by rw [h.2]⟩
+  | comb f a ihf iha =>
+    cases b <;> simp only [Term.aeq, Term.substType, Bool.and_eq_true, Bool.false_eq_true] at h ⊢
+    exact ⟨ihf _ h.1, iha _ h.2⟩
+  | abs x T c ih =>
+    cases b <;> simp only [Term.aeq, Term.substType, Bool.and_eq_true, beq_iff_eq, Bool.false_eq_true] at h ⊢
+    exact ⟨by rw [h.1], ih _ h.2⟩
+  | bound i =>
+    cases b <;> simp only [Term.aeq, Term.substType, Bool.false_eq_true] at h ⊢
+    exact h
+
+theorem Ty.lookup_map_snd (f : Ty → Ty) (n : String) : ∀ (σ : List (String × Ty)),
+    (σ.map (fun p => (p.1, f p.2))).lookup n = (σ.lookup n).map f
+  | [] => rfl
+  | (m, T) :: rest => by
+    simp only [List.map, List.lookup]
+    cases h : (n == m) with
+    | true => rfl
+    | false => exact Ty.lookup_map_snd f n rest
+
+/-- composition of two type instantiations, as one -/
+theorem Ty.subst_subst (σ τ : Ty.TyInst) (T : Ty) :
+    (T.subst σ).subst τ = T.subst (σ.map (fun p => (p.1, p.2.subst τ)) ++ τ) := by
+  induction T using Ty.ind with
+  | hs n =>
+    simp only [Ty.subst, List.lookup_append, Ty.lookup_map_snd (Ty.subst τ)]
+    cases h : σ.lookup n with
+    | none => simp only [Ty.subst, Option.map, Option.none_or]
+    | some T' => simp only [Option.map, Option.some_or]
+  | ht n => simp only [Ty.subst]
+  | hc n args ih =>
+    simp only [Ty.subst, List.map_map]
+    congr 1
+    apply List.map_congr_left
+    intro a ha
+    exact ih a ha
+
+
+theorem Ty.isFun_subst (σ : Ty.TyInst) (T : Ty) (h : T.isFun = true) : (T.subst σ).isFun = true := by
+  unfold Ty.isFun at h
+  split at h
+  · simp only [Ty.subst, Ty.isFun]
+  · cases h
+
+theorem Ty.domain?_subst (σ : Ty.TyInst) (T d : Ty) (h : T.domain? = some d) :
+    (T.subst σ).domain? = some (d.subst σ) := by
+  unfold Ty.domain? at h
+  split at h
+  · cases h; simp only [Ty.subst, List.map, Ty.domain?]
+  · cases h
+
+theorem Ty.range?_subst (σ : Ty.TyInst) (T r : Ty) (h : T.range? = some r) :
+    (T.subst σ).range? = some (r.subst σ) := by
+  unfold Ty.range? at h
+  split at h
+  · cases h; simp only [Ty.subst, List.map, Ty.range?]
+  · cases h
 
 theorem Term.checkedGetType_substType (σ : Ty.TyInst) (bd : List Ty) (t : Term) (T : Ty)
     (h : Term.checkedGetType bd t = .ok T) :
     Term.checkedGetType (bd.map (Ty.subst σ)) (Term.substType σ t) = .ok (T.subst σ) := by
-  sorry
+  induction t generalizing bd T with
+  | svar n S => simp only [Term.checkedGetType, Term.substType] at h ⊢; cases h; rfl
+  | var n S => simp only [Term.checkedGetType, Term.substType] at h ⊢; cases h; rfl
+  | const n S => simp only [Term.checkedGetType, Term.substType] at h ⊢; cases h; rfl
+  | comb f a ihf iha =>
+    simp only [Term.checkedGetType, Term.substType, bind, Except.bind] at h ⊢
+    cases hf : Term.checkedGetType bd f with
+    | error e => rw [hf] at h; cases h
+    | ok tf =>
+      cases ha : Term.checkedGetType bd a with
+      | error e => rw [hf, ha] at h; cases h
+      | ok ta =>
+        rw [hf, ha] at h
+        rw [ihf bd tf hf, iha bd ta ha]
+        simp only at h ⊢
+        cases hfun : tf.isFun with
+        | false => rw [hfun] at h; cases h
+        | true =>
+          rw [hfun] at h
+          rw [Ty.isFun_subst σ tf hfun]
+          simp only [Bool.not_true, Bool.false_eq_true, if_false] at h ⊢
+          cases hd : tf.domain? with
+          | none => rw [hd] at h; cases h
+          | some d =>
+            rw [hd] at h
+            rw [Ty.domain?_subst σ tf d hd]
+            simp only at h ⊢
+            by_cases hne : d = ta
+            · subst hne
+              simp only [bne_self_eq_false, Bool.false_eq_true, if_false] at h ⊢
+              cases hr : tf.range? with
+              | none => rw [hr] at h; cases h
+              | some r =>
+                rw [hr] at h
+                rw [Ty.range?_subst σ tf r hr]
+                cases h; rfl
+            · have : (d != ta) = true := by simpa using hne
+              rw [this] at h; cases h
+  | abs x S b ih =>
+    simp only [Term.checkedGetType, Term.substType, bind, Except.bind] at h ⊢
+    cases hb : Term.checkedGetType (S :: bd) b with
+    | error e => rw [hb] at h; cases h
+    | ok tb =>
+      rw [hb] at h
+      have := ih (S :: bd) tb hb
+      rw [List.map_cons] at this
+      rw [this]
+      cases h
+      simp only [Ty.subst_fn]
+  | bound i =>
+    simp only [Term.checkedGetType, Term.substType, List.getElem?_map] at h ⊢
+    cases hi : bd[i]? with
+    | none => rw [hi] at h; cases h
+    | some S => rw [hi] at h; cases h; rfl
 
 theorem Term.getType_substType (σ : Ty.TyInst) (bd : List Ty) (t : Term) (T : Ty)
     (h : Term.getType bd t = .ok T) :
     Term.getType (bd.map (Ty.subst σ)) (Term.substType σ t) = .ok (T.subst σ) := by
-  sorry
+  induction t generalizing bd T with
+  | svar n S => simp only [Term.getType, Term.substType] at h ⊢; cases h; rfl
+  | var n S => simp only [Term.getType, Term.substType] at h ⊢; cases h; rfl
+  | const n S => simp only [Term.getType, Term.substType] at h ⊢; cases h; rfl
+  | comb f a ihf iha =>
+    simp only [Term.getType, Term.substType, bind, Except.bind] at h ⊢
+    cases hf : Term.getType bd f with
+    | error e => rw [hf] at h; cases h
+    | ok tf =>
+      rw [hf] at h
+      rw [ihf bd tf hf]
+      simp only at h ⊢
+      cases hfun : tf.isFun with
+      | false => rw [hfun] at h; cases h
+      | true =>
+        rw [hfun] at h
+        rw [Ty.isFun_subst σ tf hfun]
+        simp only [if_true] at h ⊢
+        cases hr : tf.range? with
+        | none => rw [hr] at h; cases h
+        | some r =>
+          rw [hr] at h
+          rw [Ty.range?_subst σ tf r hr]
+          cases h; rfl
+  | abs x S b ih =>
+    simp only [Term.getType, Term.substType, bind, Except.bind] at h ⊢
+    cases hb : Term.getType (S :: bd) b with
+    | error e => rw [hb] at h; cases h
+    | ok tb =>
+      rw [hb] at h
+      have := ih (S :: bd) tb hb
+      rw [List.map_cons] at this
+      rw [this]
+      cases h
+      simp only [Ty.subst_fn]
+  | bound i =>
+    simp only [Term.getType, Term.substType, List.getElem?_map] at h ⊢
+    cases hi : bd[i]? with
+    | none => rw [hi] at h; cases h
+    | some S => rw [hi] at h; cases h; rfl
+
+theorem constVal_pull (M : Model) (ρ : Valuation) (σ : Ty.TyInst) (n : String) (T : Ty) :
+    constVal M ρ n (T.subst σ) = constVal (M.pull σ) (ρ.pull M σ) n T := by
+  cases hk : logicalKind n T with
+  | none =>
+    conv => rhs; unfold constVal
+    rw [hk]
+    simp only [Valuation.pull, if_true]
+  | some p =>
+    obtain ⟨k, a⟩ := p
+    unfold constVal
+    rw [hk, logicalKind_subst n T k a σ hk]
+    match k with
+    | 0 => simp only [Model.size_pull]
+    | 1 => rfl
+    | k + 2 => simp only [Model.size_pull]
+
+/-- inversion of `checkedGetType` on an application -/
+theorem Term.checkedGetType_comb_inv (bd : List Ty) (f a : Term) (T : Ty)
+    (h : Term.checkedGetType bd (.comb f a) = .ok T) :
+    ∃ tf ta, Term.checkedGetType bd f = .ok tf ∧ Term.checkedGetType bd a = .ok ta ∧
+      tf.range? = some T := by
+  simp only [Term.checkedGetType, bind, Except.bind] at h
+  cases hf : Term.checkedGetType bd f with
+  | error e => rw [hf] at h; cases h
+  | ok tf =>
+    cases ha : Term.checkedGetType bd a with
+    | error e => rw [hf, ha] at h; cases h
+    | ok ta =>
+      rw [hf, ha] at h
+      refine ⟨tf, ta, rfl, rfl, ?_⟩
+      simp only at h
+      split at h
+      · cases h
+      · split at h
+        · cases h
+        · split at h
+          · cases h
+          · split at h
+            · rename_i hr; cases h; exact hr
+            · cases h
+
+/-- inversion of `checkedGetType` on an abstraction -/
+theorem Term.checkedGetType_abs_inv (bd : List Ty) (x : String) (S : Ty) (b : Term) (T : Ty)
+    (h : Term.checkedGetType bd (.abs x S b) = .ok T) :
+    ∃ tb, Term.checkedGetType (S :: bd) b = .ok tb ∧ T = Ty.fn S tb := by
+  simp only [Term.checkedGetType, bind, Except.bind] at h
+  cases hb : Term.checkedGetType (S :: bd) b with
+  | error e => rw [hb] at h; cases h
+  | ok tb => rw [hb] at h; cases h; exact ⟨tb, rfl, rfl⟩
 
 /-- denotation of an instantiated term -/
 theorem sem_substType (M : Model) (ρ : Valuation) (σ : Ty.TyInst) (bd : List Ty) (env : List Nat)
     (t : Term) (T : Ty) (h : Term.checkedGetType bd t = .ok T) :
     sem M ρ (bd.map (Ty.subst σ)) env (Term.substType σ t)
       = sem (M.pull σ) (ρ.pull M σ) bd env t := by
-  sorry
-
-/-- alpha-equivalence is preserved by type instantiation -/
-theorem Term.aeq_substType (σ : Ty.TyInst) (a b : Term) (h : Term.aeq a b = true) :
-    Term.aeq (Term.substType σ a) (Term.substType σ b) = true := by
-  sorry
-
-/-- composition of two type instantiations, as one -/
-theorem Ty.subst_subst (σ τ : Ty.TyInst) (T : Ty) :
-    (T.subst σ).subst τ = T.subst (σ.map (fun p => (p.1, p.2.subst τ)) ++ τ) := by
-  sorry
+  induction t generalizing bd env T with
+  | svar n S => simp only [Term.substType, sem, Valuation.pull]; rfl
+  | var n S => simp only [Term.substType, sem, Valuation.pull]; rfl
+  | const n S => simp only [Term.substType, sem]; exact constVal_pull M ρ σ n S
+  | comb f a ihf iha =>
+    obtain ⟨tf, ta, hf, ha, hr⟩ := Term.checkedGetType_comb_inv bd f a T h
+    have hgf := Term.getType_of_checked bd f tf hf
+    simp only [Term.substType, sem]
+    rw [Term.getType_substType σ bd f tf hgf, hgf]
+    simp only
+    rw [Ty.range?_subst σ tf T hr, hr]
+    simp only
+    rw [ihf bd env tf hf, iha bd env ta ha, Model.size_pull]
+  | abs x S b ih =>
+    obtain ⟨tb, hb, rfl⟩ := Term.checkedGetType_abs_inv bd x S b T h
+    have hgb := Term.getType_of_checked (S :: bd) b tb hb
+    simp only [Term.substType, sem]
+    have h1 := Term.getType_substType σ (S :: bd) b tb hgb
+    rw [List.map_cons] at h1
+    rw [h1, hgb]
+    simp only
+    rw [Model.size_pull, Model.size_pull]
+    apply lamCode_congr
+    intro v _
+    have := ih (S :: bd) (v :: env) tb hb
+    rw [List.map_cons] at this
+    exact this
+  | bound i => simp only [Term.substType, sem]
 
 end Holpy
